@@ -17,7 +17,11 @@ Inductive c13case :=
        (batches : list (list req))        (* the batches the writer formed (from the hook's trace), in order *)
        (unsent : list (req * bool))       (* requests that never reached a batch: the process died before (false),
                                              or the first validation refused them, answered Err upstream (true) *)
-       (f : fault_spec).
+       (f : fault_spec)
+| CRestart (init : list (N * N * N))      (* a fault-free workload (every request acknowledged), the process ended, and then *)
+           (batches : list (list req))    (* the folder is opened again with a fault armed during GraphDatabaseService::start *)
+           (script : list sstep)          (* what the writer sees of that start (+ the closing write), from a fault-free start *)
+           (f : fault_spec).
 
 Definition init_disk (init : list (N * N * N)) : disk :=
   recompute {| d_rows := map (fun x => ((snd x, fst (fst x)), snd (fst x))) init; d_tombs := [];
@@ -61,9 +65,25 @@ Definition ack_code (a : option bool) : Z := match a with Some true => 1 | Some 
    then: alive, hits (alive) or the point it died at, log invariant on the file as left,
    log consistent after the restart's recompute, writes work after restart, query interface = tables,
    the writer stays in service (no batch behind a failed one is reported failed: C13_never_wedged_holds, one fault per run) *)
+Definition all_continue : schedule := fun _ => Continue.
+Definition script_reqs (sc : list sstep) : list req :=
+  flat_map (fun s => match s with SAwait b | SFree b => b | _ => [] end) sc.
 Definition run_model (c : c13case) : list Z :=
   match c with
   | CSkip => []
+  | CRestart init batches script f =>
+      (* phase A: the workload, no fault *)
+      let ra := run_batches code_skeleton all_continue 0 {| w_disk := init_disk init; w_stuck := false |} true batches in
+      (* phase B: a new process (new connection, hits counted from 0) starts on what was committed *)
+      let rb := run_script code_skeleton (sched_of f) 0 {| w_disk := w_disk (rr_state ra); w_stuck := false |} true false script in
+      let d' := w_disk (sr_state rb) in
+      let dr := restart (sr_state rb) in
+      (* per request of the workload: visible after this start and one more, normal, start;
+         per request the writer saw after start() returned (the closing write): acknowledgement, visibility *)
+      map (fun q => vis dr q) (concat batches)
+      ++ flat_map (fun x => [ack_code (it_ack x); vis dr (it_req x)]) (filter (fun x => negb (match req_ops (it_req x) with [] => true | _ => false end)) (sr_items rb))
+      ++ [zb (sr_alive rb); zn (if sr_alive rb then sr_hits rb else sr_last rb); zb (sr_started rb);
+          zb (loginv_b d'); zb (consistent_b dr); 1; 1]
   | CRun init batches unsent f =>
       let r := run_batches code_skeleton (sched_of f) 0 {| w_disk := init_disk init; w_stuck := false |} true batches in
       let d' := w_disk (rr_state r) in
@@ -94,9 +114,20 @@ Definition req_ok (t : Z * Z * Z) : bool :=
   (Z.eqb v 0 || Z.eqb v 1) && (Z.eqb l (-1) || Z.eqb l v) &&
   (Z.eqb a 0 || Z.eqb a 1 || Z.eqb a 2) &&
   implb (Z.eqb a 1) (Z.eqb v 1) && implb (Z.eqb a 2) (Z.eqb v 0).
+Fixpoint pairs_ok (obs : list Z) : bool :=   (* (acknowledgement, visibility) of the closing writes, then 8 flags *)
+  match obs with
+  | [alive; hits; started; inv0; cns; again; api; wf] => Z.eqb inv0 1 && Z.eqb cns 1 && Z.eqb again 1 && Z.eqb api 1
+  | a :: v :: rest => req_ok (a, v, v) && pairs_ok rest
+  | _ => false
+  end.
 Definition spec_C13 (c : c13case) (obs : list Z) : bool :=
   match c with
   | CSkip => true
+  | CRestart init batches script f =>
+      (* every request of the (acknowledged) workload is still entirely visible, whatever happened during the start *)
+      forallb (fun v => Z.eqb v 1) (firstn (length (concat batches)) obs) &&
+      Nat.leb (length (concat batches)) (length obs) &&
+      pairs_ok (skipn (length (concat batches)) obs)
   | CRun init batches unsent f =>
       match triples (length (concat batches) + length unsent) obs with
       | Some (ts, [alive; hits; inv0; cns; again; api; svc; wf]) =>
@@ -119,7 +150,7 @@ Fixpoint k2 (seen_revoke : bool) (l : list req) : bool :=
 Definition known_C13 (c : c13case) : list Z :=
   match c with
   | CRun _ batches _ _ => if k2 false (concat batches) then [1] else []
-  | CSkip => []
+  | _ => []
   end.
 
 (* ---- shapes the harness generates (hypothesis of the theorems; checked on the closed witnesses) *)
@@ -139,6 +170,15 @@ Definition req_shape (r : req) : bool :=
 Definition wf_case (c : c13case) : bool :=
   match c with
   | CSkip => true
+  | CRestart init batches script f =>
+      let d0 := init_disk init in
+      let rs := concat batches ++ script_reqs script in
+      nodup_keys (map op_key (flat_map req_ops rs)) &&
+      forallb (fun o => negb (reflected d0 o)) (flat_map req_ops rs) &&
+      forallb (covers code_skeleton) rs &&
+      forallb req_shape (concat batches) &&
+      negb (k2 false (concat batches)) &&
+      loginv_b d0
   | CRun init batches unsent f =>
       let d0 := init_disk init in
       let rs := concat batches ++ map fst unsent in
